@@ -336,9 +336,8 @@ func (h *H) newBroadcast(nd *node, parent string) *reqInfo {
 }
 
 // awaitOutcome: the current broadcast of nd has ended; wait for what the real code does next.
-func (h *H) awaitOutcome(nd *node, obs map[string]interface{}) {
+func (h *H) awaitOutcome(nd *node, obs map[string]interface{}, nreq int) {
 	op := nd.op
-	nreq := len(nd.reqs)
 	switch {
 	case op.kind == resources.PreCommit:
 		ok := h.waitCond(longWait, func() bool { return nd.preDone || h.fullRequest(nd, nreq) })
@@ -484,6 +483,7 @@ func (h *H) answerSlot(from, q, to, r int, obs map[string]interface{}) {
 		a.reply = lk.replies[r]
 	}
 	nslots := len(lk.slots)
+	nreq := len(nd.reqs)
 	h.mu.Unlock()
 	before := h.inFlight(nd)
 	s.answered = true
@@ -508,7 +508,15 @@ func (h *H) answerSlot(from, q, to, r int, obs map[string]interface{}) {
 		}
 		h.mu.Unlock()
 	} else {
-		if !waitPoll(longWait, func() bool { return h.inFlight(nd) == before-1 }) {
+		// the handler decrements numInFlightRequests after handing its result to the broadcast loop, which may
+		// already have started the next broadcast (+ n-1) by then
+		if !waitPoll(longWait, func() bool {
+			f := h.inFlight(nd)
+			h.mu.Lock()
+			full, grew := h.fullRequest(nd, nreq), len(nd.reqs) > nreq
+			h.mu.Unlock()
+			return (f == before-1 && !grew) || (full && f == before-1+h.n-1)
+		}) {
 			h.err = "hang: response handler did not finish"
 			return
 		}
@@ -535,7 +543,7 @@ func (h *H) answerSlot(from, q, to, r int, obs map[string]interface{}) {
 	}
 	if op.trues >= op.required || op.total-op.falses < op.required {
 		op.ended = true
-		h.awaitOutcome(nd, obs)
+		h.awaitOutcome(nd, obs, nreq)
 	}
 }
 
@@ -889,42 +897,133 @@ func runStepped(k kase) (res result) {
 			if ev == nil {
 				continue
 			}
-		}
-		if why := h.valid(ev); why != "" {
-			res.Steps = append(res.Steps, stepJ{Ev: ev, Obs: map[string]interface{}{"skipped": why}})
+		} else if s == "E" {
+			h.epilogue(&k, &res)
+			if h.err != "" {
+				res.Err = h.err
+				break
+			}
 			continue
 		}
-		obs := map[string]interface{}{}
-		kind := ev[0].(string)
-		switch kind {
-		case "R", "P", "C", "A":
-			h.appEvent(kind, ival(ev[1]), 0, obs)
-		case "W":
-			nd := h.nodes[ival(ev[1])]
-			nd.valCtr++
-			h.appEvent(kind, ival(ev[1]), int64(ival(ev[2])), obs)
-		case "D":
-			h.deliver(ival(ev[1]), ival(ev[2]), ival(ev[3]), obs)
-		case "Y":
-			h.answerSlot(ival(ev[1]), ival(ev[2]), ival(ev[3]), ival(ev[4]), obs)
-		case "T":
-			h.answerSlot(ival(ev[1]), ival(ev[2]), ival(ev[3]), -1, obs)
-		}
-		norm := make([]interface{}, len(ev))
-		for i, x := range ev {
-			if i == 0 {
-				norm[i] = x
-			} else {
-				norm[i] = ival(x)
-			}
-		}
-		res.Steps = append(res.Steps, stepJ{Ev: norm, Obs: obs, Snaps: h.snaps()})
+		h.exec(ev, &res)
 		if h.err != "" {
 			res.Err = h.err
 			break
 		}
 	}
 	return
+}
+
+// exec performs one concrete event (if it is valid in the current state) and records the step.
+func (h *H) exec(ev []interface{}, res *result) map[string]interface{} {
+	if why := h.valid(ev); why != "" {
+		res.Steps = append(res.Steps, stepJ{Ev: ev, Obs: map[string]interface{}{"skipped": why}})
+		return nil
+	}
+	obs := map[string]interface{}{}
+	kind := ev[0].(string)
+	switch kind {
+	case "R", "P", "C", "A":
+		h.appEvent(kind, ival(ev[1]), 0, obs)
+	case "W":
+		nd := h.nodes[ival(ev[1])]
+		nd.valCtr++
+		h.appEvent(kind, ival(ev[1]), int64(ival(ev[2])), obs)
+	case "D":
+		h.deliver(ival(ev[1]), ival(ev[2]), ival(ev[3]), obs)
+	case "Y":
+		h.answerSlot(ival(ev[1]), ival(ev[2]), ival(ev[3]), ival(ev[4]), obs)
+	case "T":
+		h.answerSlot(ival(ev[1]), ival(ev[2]), ival(ev[3]), -1, obs)
+	}
+	norm := make([]interface{}, len(ev))
+	for i, x := range ev {
+		if i == 0 {
+			norm[i] = x
+		} else {
+			norm[i] = ival(x)
+		}
+	}
+	res.Steps = append(res.Steps, stepJ{Ev: norm, Obs: obs, Snaps: h.snaps()})
+	return obs
+}
+
+// drain: every node reachable, nothing lost: deliver and answer every blocked send, let every writer finish
+// (commit after a successful pre-commit, abort otherwise). Returns the number of completed commits.
+func (h *H) drainAll(k *kase, res *result, budget int) int {
+	commits := 0
+	for it := 0; it < budget && h.err == ""; it++ {
+		var ev []interface{}
+		h.mu.Lock()
+	search:
+		for _, nd := range h.nodes {
+			for _, ri := range nd.reqs {
+				for to := 0; to < h.n; to++ {
+					lk := ri.links[to]
+					if lk == nil || lk.blocked() == nil {
+						continue
+					}
+					if len(lk.replies) == 0 {
+						ev = []interface{}{"D", nd.idx, ri.q, to}
+					} else {
+						ev = []interface{}{"Y", nd.idx, ri.q, to, len(lk.replies) - 1}
+					}
+					break search
+				}
+			}
+		}
+		h.mu.Unlock()
+		if ev == nil {
+			for _, i := range k.Writers {
+				switch h.nodes[i].stage {
+				case 4:
+					ev = []interface{}{"C", i}
+				case 1, 2, 5:
+					ev = []interface{}{"A", i}
+				}
+				if ev != nil {
+					break
+				}
+			}
+		}
+		if ev == nil {
+			break
+		}
+		obs := h.exec(ev, res)
+		if obs != nil && obs["then"] == "commit_done" {
+			commits++
+		}
+	}
+	return commits
+}
+
+// epilogue: implementation-side progress check. After the schedule, with every replica reachable and no
+// more faults, pending work is completed and the writers take turns attempting a section; some attempt must
+// commit within a few rounds.
+func (h *H) epilogue(k *kase, res *result) {
+	commits := h.drainAll(k, res, 600)
+	rounds := 0
+	for commits == 0 && rounds < 4 && h.err == "" {
+		rounds++
+		for _, w := range k.Writers {
+			nd := h.nodes[w]
+			if nd.stage != 0 {
+				continue
+			}
+			obs := h.exec([]interface{}{"R", w}, res)
+			if obs == nil || obs["err"] == true {
+				h.exec([]interface{}{"A", w}, res)
+				continue
+			}
+			h.exec([]interface{}{"W", w, h.nextVal(nd)}, res)
+			h.exec([]interface{}{"P", w}, res)
+			commits += h.drainAll(k, res, 600)
+			if commits > 0 || h.err != "" {
+				break
+			}
+		}
+	}
+	res.Steps = append(res.Steps, stepJ{Ev: []interface{}{"E"}, Obs: map[string]interface{}{"committed": commits > 0, "rounds": rounds}})
 }
 
 // ---------------------------------------------------------------- smoke: real RPC handles over loopback
